@@ -5,7 +5,7 @@
    CRS parsing and the YAML text layer are oracles (function / table arguments), never axioms. *)
 From Coq Require Import Reals ZArith Bool List Lra Lia PrimFloat.
 From PR Require Import Base.Num Base.RNum Base.F64 Model.AreaConfig Model.AreaYaml Model.C13_run
-     Gen.GenC13 Proofs.C13_base Proofs.C13_sets Proofs.C13_contra Proofs.C13_missing Proofs.C13_round Proofs.C13_yaml Proofs.C13_gen Proofs.C13_snap Model.Grid Proofs.C13_more.
+     Gen.GenC13 Proofs.C13_base Proofs.C13_sets Proofs.C13_contra Proofs.C13_missing Proofs.C13_round Proofs.C13_yaml Proofs.C13_gen Proofs.C13_snap Model.Grid Proofs.C13_more Proofs.C13_hist.
 Import ListNotations.
 Open Scope R_scope.
 
@@ -378,3 +378,33 @@ Example C13_cycles_ex :
   r_ext (cycles facts 3 a) = (-100 * (1000 * 1), -200 * (1000 * 1), 300 * (1000 * 1), 400 * (1000 * 1)) /\
   r_units (cycles facts 3 a) = Some UTm.
 Proof. cbn zeta. split; reflexivity. Qed.
+
+(* ------------------------------------------------------------------------------------------------------------
+   8. Histories on one file: dump(filename) appends, the file may be rewritten or removed, loads (whole file, a selection,
+      one id) are interleaved.  By induction over the history: every load returns exactly the areas the file holds at that
+      moment (all of them in file order / the selection / AreaNotFound for an id that is not there / an error when there
+      is no file); what was loaded or written earlier does not matter.  The harness drives the same histories through one
+      path in one process and compares every load with the model's load_file on the current content. *)
+Theorem C13_history_loads :
+  forall (crs_facts : pentry -> bool * cu * (cu -> R * R)) (ops : list op) cur,
+    (match cur with Some c => good crs_facts c | None => True end) -> ok_hist crs_facts ops cur ->
+    run crs_facts ops (option_map (map dump_dict) cur) = expect crs_facts ops cur.
+Proof. intros crs_facts ops. exact (history_loads crs_facts ops). Qed.
+Print Assumptions C13_history_loads.
+(* a history with an append after a load, a load by the new id, a rewrite, and a load of an id that is gone *)
+Example C13_history_ex :
+  let a1 := @mk_area_rec R 1 10 3 (Some 3857%Z) None (5, 6)%Z (-100, -200, 300, 400) in
+  let a2 := @mk_area_rec R 2 20 3 (Some 3857%Z) None (7, 8)%Z (0, 0, 30, 40) in
+  let facts := fun _ : pentry => (false, Cm, fun _ : cu => (1, 1)) in
+  let ops := [OpDump a1; OpLoadAll; OpDump a2; OpLoadAll; OpLoadId 2; OpOverwrite [a2]; OpLoadId 1] in
+  ok_hist facts ops None /\
+  expect facts ops None = [Ok [loaded_of facts a1]; Ok [loaded_of facts a1; loaded_of facts a2]; Ok [loaded_of facts a2]; Err].
+Proof.
+  cbn zeta. split; [|reflexivity].
+  assert (A1 : area_ok (fun _ : pentry => (false, Cm, fun _ : cu => (1, 1))) (@mk_area_rec R 1 10 3 (Some 3857%Z) None (5, 6)%Z (-100, -200, 300, 400))).
+  { unfold area_ok. cbn. repeat split; try lia; try lra; try discriminate. }
+  assert (A2 : area_ok (fun _ : pentry => (false, Cm, fun _ : cu => (1, 1))) (@mk_area_rec R 2 20 3 (Some 3857%Z) None (7, 8)%Z (0, 0, 30, 40))).
+  { unfold area_ok. cbn. repeat split; try lia; try lra; try discriminate. }
+  cbn [ok_hist app]. unfold good. cbn [map r_id].
+  repeat split; auto; repeat constructor; auto; cbn; intuition lia.
+Qed.
